@@ -78,7 +78,7 @@ Lemma upload_unfold dir key name data imm sfx reads f0 : localize key = Some nam
        end
      else do err <- write_file p data 420 sfx f0; ret (res_of err)
    end).
-Proof. intros H. unfold upload. rewrite H. reflexivity. Qed.
+Proof. intros H. unfold upload, upload_with. rewrite H. reflexivity. Qed.
 
 (* ---------------------------------------------------------------------------------------- *)
 (* immutable objects                                                                          *)
@@ -352,12 +352,10 @@ Qed.
 Definition comp_ok (c : name) : Prop :=
   c <> [] /\ c <> dot /\ c <> dotdot /\ ~ In x2f c /\ ~ In x00 c.
 
-(* CONFINED: a key accepted by filepath.Localize is a sequence of path components none of
-   which is empty, ".", "..", or contains '/' or NUL; joined below the configured directory it
-   cannot name anything outside it (the key "." yields no component: the directory itself) *)
-Theorem confined : forall key name, localize key = Some name -> Forall comp_ok name.
+(* filepath.Localize (the pre-fix key check): components are well-formed, but there may be none *)
+Lemma localize_prefix_components : forall key name, localize_prefix key = Some name -> Forall comp_ok name.
 Proof.
-  intros key name. unfold localize.
+  intros key name. unfold localize_prefix.
   destruct (negb (utf8_valid key)); [discriminate|].
   destruct (bytes_eqb key dot); [intros [= <-]; constructor|].
   destruct (forallb elem_ok (split_slash key)) eqn:E1; [|discriminate].
@@ -376,6 +374,21 @@ Proof.
   split.
   - pose proof (split_on_no_sep x2f key [] (fun H => H)) as F. rewrite Forall_forall in F. apply F. exact Hc.
   - intros G. destruct (split_on_subset x2f key [] _ x00 Hc G) as [G'|[]]. auto.
+Qed.
+
+Lemma localize_inv key name : localize key = Some name -> localize_prefix key = Some name /\ name <> [].
+Proof.
+  unfold localize. destruct (localize_prefix key) as [[|c r]|]; try discriminate.
+  intros [= <-]. split; [reflexivity|discriminate].
+Qed.
+
+(* CONFINED: a key accepted by localizeKey is a NON-EMPTY sequence of path components none of
+   which is empty, ".", "..", or contains '/' or NUL; joined below the configured directory it
+   names an object strictly inside it *)
+Theorem confined : forall key name, localize key = Some name -> name <> [] /\ Forall comp_ok name.
+Proof.
+  intros key name H. destruct (localize_inv _ _ H) as [H1 H2]. split; auto.
+  eapply localize_prefix_components; eauto.
 Qed.
 
 (* the system calls of Upload only name objects below the configured directory (mutating calls:
@@ -519,11 +532,13 @@ Qed.
 Lemma emits_weaken {A} (m : M A) (P Q : sys -> Prop) : emits m P -> (forall c, P c -> Q c) -> emits m Q.
 Proof. intros H G s. eapply Forall_impl; [exact G|apply H]. Qed.
 
-Theorem upload_confined : forall dir key name data imm sfx reads f0,
-  localize key = Some name -> name <> [] ->
+Theorem upload_confined : forall dir key data imm sfx reads f0,
   emits (upload dir key data imm sfx reads f0) (confined_call dir).
 Proof.
-  intros dir key name data imm sfx reads f0 Hloc Hne.
+  intros dir key data imm sfx reads f0.
+  destruct (localize key) as [name|] eqn:Hloc.
+  2:{ unfold upload, upload_with. rewrite Hloc. apply emits_ret. }
+  assert (Hne : name <> []) by (apply (localize_inv _ _ Hloc)).
   rewrite (upload_unfold _ _ _ _ _ _ _ _ Hloc). cbv zeta.
   set (p := dir ++ name).
   assert (Hp : p <> []) by (unfold p; destruct dir; [exact Hne|discriminate]).
@@ -578,24 +593,31 @@ Proof.
   destruct (mkdir_durable (init_fs false) store0 0 Hw Hd Hr) as [A [B [C _]]]. auto.
 Qed.
 
-(* The key "." is accepted by filepath.Localize and names the configured directory itself:
-   Upload creates its temporary file NEXT TO the configured directory (in its parent), when
-   the directory does not exist yet the object takes its place (a regular file), and Discard
-   removes the configured directory when it is empty. *)
-Theorem confined_dot_refuted :
+(* BEFORE the fix "local backend must not accept the key \".\"": the key "." is accepted by
+   filepath.Localize and names the configured directory itself. Upload created its temporary
+   file NEXT TO the configured directory (in its parent); when the directory did not exist yet
+   the object took its place (a regular file); Discard removed the configured directory when it
+   was empty. The code as it is now rejects the key (last two conjuncts). *)
+Theorem prefix_confined_dot_refuted :
   let key := s2b "." in
   let tmp := [tmp_name (s2b "store") (s2b "1")] in
-  localize key = Some [] /\
-  nth_error (trace_of (upload store0 key (s2b "x") false (s2b "1") [] 0 st0)) 2 = Some (SCreat tmp 1) /\
+  localize_prefix key = Some [] /\
+  nth_error (trace_of (upload_prefix store0 key (s2b "x") false (s2b "1") [] 0 st0)) 2 = Some (SCreat tmp 1) /\
   ~ below store0 tmp /\
-  (let r := upload store0 key (s2b "x") false (s2b "1") [] 0 (init_fs false) in
+  (let r := upload_prefix store0 key (s2b "x") false (s2b "1") [] 0 (init_fs false) in
    result_of r = UOk /\ read_path (state_of r) store0 = Some (s2b "x")) /\
-  (let r := discard store0 key 0 st0 in
-   result_of r = UOk /\ walk (dirs (state_of r)) store0 = WErr ENOENT).
+  (let r := discard_prefix store0 key 0 st0 in
+   result_of r = UOk /\ walk (dirs (state_of r)) store0 = WErr ENOENT) /\
+  localize key = None /\
+  (forall s data imm sfx reads f0,
+     upload store0 key data imm sfx reads f0 s = (UBadKey, s, []) /\
+     discard store0 key f0 s = (UBadKey, s, []) /\ fetch store0 key f0 s = (FBadKey, s, [])).
 Proof.
   cbv zeta. split; [vm_compute; reflexivity|]. split; [vm_compute; reflexivity|]. split.
-  - intros [r H]. vm_compute in H. discriminate H.
-  - split; vm_compute; split; reflexivity.
+  { intros [r H]. vm_compute in H. discriminate H. }
+  split; [split; vm_compute; reflexivity|]. split; [split; vm_compute; reflexivity|].
+  split; [vm_compute; reflexivity|].
+  intros. repeat split; reflexivity.
 Qed.
 
 (* Two concurrent uploads into the same NEW directory. Writer A (key new/a) is preempted right
